@@ -17,7 +17,7 @@ from .state import State, Decls, Obligation, fresh_name
 
 class Contract:
     def __init__(self, key, params=None, returns='any', requires=(), ensures=(), modifies=(), raises=None,
-                 loops=None, ghost=None, holes=None, assumed=False, note='', result_is=None, frame=True, fresh=False):
+                 loops=None, ghost=None, holes=None, assumed=False, note='', result_is=None, frame=True, fresh=False, under=()):
         self.key = key
         self.params = params or {}
         self.returns = returns
@@ -33,6 +33,9 @@ class Contract:
         self.result_is = result_is      # expression: result == this (pure function); strongest postcondition
         self.frame = frame
         self.fresh = fresh              # the result is a freshly allocated list/object
+        # conditions under which the function is verified; at call sites the postcondition is assumed only when they
+        # hold (they are not obligations of the caller): outside them only the type-level contract is assumed
+        self.under = list(under)
 
 
 class SpecFn:
@@ -271,7 +274,7 @@ class Engine(ValueOps, ExprOps, CallOps, StmtOps):
             res = self._spec_result(app, sf)
             depth = self.spec_depth.get(name, 0)
             key = ('unfold', app, st.ver)
-            if depth < sf.fuel and key not in self.seq_axioms_done:
+            if depth < sf.fuel and key not in self.seq_axioms_done and not getattr(self, 'no_unfold', False):
                 self.seq_axioms_done.add(key)
                 self.spec_depth[name] = depth + 1
                 try:
@@ -291,6 +294,11 @@ class Engine(ValueOps, ExprOps, CallOps, StmtOps):
         st.env = dict(zip([a.arg for a in fd.args.args], args))
         try:
             return self.spec_body(list(fd.body))
+        except Unsupported as e:
+            if not getattr(e, 'in_spec', None):
+                e.in_spec = fd.name
+                e.args = (str(e.args[0]) + ' [in spec %s(%s)]' % (fd.name, ', '.join(getattr(a, 'kind', '?') for a in args)),) + tuple(e.args[1:])
+            raise
         except PathInfeasible:
             # ill-typed application: the spec function is unconstrained there
             if ret.startswith('seq'):
@@ -540,10 +548,27 @@ class Engine(ValueOps, ExprOps, CallOps, StmtOps):
                     self.wf_used.add('%s: %s' % (fi.cls, r))
                     continue
                 st.oblige(self.spec_eval_bool(r), 'precondition of %s: %s' % (con.key, r), ln, kind='requires')
+            # the callee's result is named by its specification term; its definition is unfolded where the caller's own
+            # specification mentions it, not here (keeps the VCs of callers that do not care about the value small)
+            self.no_unfold = True
+            under = mk_and(*[self.spec_eval_bool(u) for u in con.under]) if con.under else TRUE
+            if con.under:
+                self.wf_used.add('%s: verified under [%s]; outside it only its type-level contract is assumed'
+                                 % (con.key, ' and '.join(con.under)))
+            for exc, when in con.raises.items():
+                if exc in self.cur_raises:
+                    continue                  # the caller's contract lets it propagate
+                if isinstance(when, str):
+                    st.oblige(mk_not(mk_and(under, self.spec_eval_bool(when))), '%s may raise %s when: %s' % (con.key, exc, when), ln, kind='requires')
+                else:
+                    self.wf_used.add('%s may raise %s (unconditional raises clause); propagation into %s not tracked'
+                                      % (con.key, exc, self.verifying))
             self.havoc_modifies(con.modifies, env)
             self.old_state = pre
             if con.result_is is not None:
                 res = self.spec_eval(con.result_is)
+                if under != TRUE:
+                    res = self.cond_result(under, res, fi.node.name)
             elif con.returns == 'none':
                 res = self.const(None)
             else:
@@ -555,11 +580,27 @@ class Engine(ValueOps, ExprOps, CallOps, StmtOps):
             res = self.share(res, 'res')
             st.env['result'] = res
             for e in con.ensures:
-                st.assume(self.spec_eval_bool(e), 'ensures')
+                st.assume(mk_implies(under, self.spec_eval_bool(e)), 'ensures')
         finally:
+            self.no_unfold = False
             self.old_state = saved_old
             st.env = saved_env
         return res
+
+    def cond_result(self, under, val, name):
+        """a fresh value of val's kind that equals val when `under` holds"""
+        st = self.st
+        if val.kind in ('str', 'int', 'bool'):
+            c = st.decls.const('res_' + name, {'str': 'String', 'int': 'Int', 'bool': 'Bool'}[val.kind])
+            st.assume(mk_implies(under, mk_eq(c, val.term)), 'ensures')
+            return SV(val.kind, c, val.ty)
+        if val.kind == 'tuple' and val.elems is not None:
+            return SV('tuple', elems=[self.cond_result(under, e, name) for e in val.elems], ty=val.ty)
+        if val.kind == 'val':
+            c = st.decls.const('res_' + name, 'Val')
+            st.assume(mk_implies(under, mk_eq(c, val.term)), 'ensures')
+            return self.unbox(c, val.ty)
+        raise Unsupported('conditional contract (under=...) with a result of kind %s' % val.kind)
 
     def is_class_invariant(self, selfsv, text):
         if selfsv is None or selfsv.kind != 'ref' or not self.invariants:
@@ -641,7 +682,7 @@ class Engine(ValueOps, ExprOps, CallOps, StmtOps):
             try:
                 st = self.initial_state(con, fi, decls)
                 st.decisions = list(prefix)
-                for r in con.requires:
+                for r in list(con.requires) + list(con.under):
                     st.assume(self.spec_eval_bool(r), 'requires')
                 pre = st.snapshot()
                 pre.env = dict(st.env)
